@@ -118,7 +118,7 @@ func runC10(c *Ctx) {
 				}
 			}
 			for _, r := range Returns(fn) {
-				expand(r.Results[0], r, 0)
+				expand(ReturnOperand(r, 0), r, 0)
 			}
 			if len(rets) == 0 {
 				c.Undecided("%s has no return that can be true", fn)
@@ -386,11 +386,11 @@ func runC10(c *Ctx) {
 			}), true
 		})
 		for i, r := range Returns(chm) {
-			if isBoolConst(r.Results[0], false) {
+			if isBoolConst(ReturnOperand(r, 0), false) {
 				continue
 			}
 			ok, p := MustPassEdges(chm, r, enabled)
-			c.Check(FuncKey(chm)+"::only-enabled-checks#"+itoa(i), r.Pos(), ok && len(enabled) > 0 && isBoolConst(r.Results[0], true), "an unmatched directive is reported only if it names a check the user enabled; path: %s", PathString(chm, p))
+			c.Check(FuncKey(chm)+"::only-enabled-checks#"+itoa(i), r.Pos(), ok && len(enabled) > 0 && isBoolConst(ReturnOperand(r, 0), true), "an unmatched directive is reported only if it names a check the user enabled; path: %s", PathString(chm, p))
 		}
 		if len(u1000) == 0 {
 			c.Check(FuncKey(chm)+"::u1000-never-flagged", chm.Pos(), false, "couldHaveMatched no longer special-cases u1000")
@@ -405,9 +405,9 @@ func runC10(c *Ctx) {
 			// from the u1000 edge only 'return false' is reachable
 			t, path := PathAvoiding(chm, blk.Instrs[0], func(in ssa.Instruction) bool {
 				r, ok := in.(*ssa.Return)
-				return ok && !isBoolConst(r.Results[0], false)
+				return ok && !isBoolConst(ReturnOperand(r, 0), false)
 			}, nil, nil)
-			if r, ok := blk.Instrs[0].(*ssa.Return); ok && !isBoolConst(r.Results[0], false) {
+			if r, ok := blk.Instrs[0].(*ssa.Return); ok && !isBoolConst(ReturnOperand(r, 0), false) {
 				t = r
 			}
 			// the edge itself must be unconditional on u1000 (no extra conjunct): the block of the comparison is reached for every check
